@@ -61,6 +61,10 @@ fn order_project(rng: &mut Rng) -> Vec<(String, String)> {
             let code = if rng.chance(1, 2) { format!(" = {}", rng.below(3)) } else { String::new() };
             let name = if rng.chance(1, 3) { "same".to_string() } else { format!("m{k}") };
             s.push_str(&format!("{}{t1} {name}({dir}{t2} x, {t1} y){code};{}", if rng.chance(1, 4) { "oneway " } else { "" }, if multi_line { "\n" } else { " " }));
+            // recovered syntax errors between members: syntax-stage and validation diagnostics interleave
+            if rng.chance(1, 4) {
+                s.push_str(rng.pick_str(&["int = 3; ", "this is wrong; ", "void bad(; ", "Nope3 overflow() = 99999999999; ", "@X( ; "]));
+            }
         }
         s.push('}');
         if rng.chance(1, 5) {
@@ -192,6 +196,48 @@ pub fn run(ctx: &Ctx) -> i32 {
                 check("fresh parser, permuted insertion order", &other, &mut problems);
                 n_runs += 1;
                 r += 3;
+            }
+            // the same set of (id, content) pairs reached through replacement: every id first holds another
+            // file's content (or nothing parsable), then its own; extra ids are added and removed again
+            for variant in 0..3usize {
+                let mut p2: Parser<String> = Parser::new();
+                for (k, (id, _)) in files.iter().enumerate() {
+                    let other = &files[(k + 1 + variant) % files.len()].1;
+                    p2.add_content(id.clone(), if variant == 2 { "package broken {" } else { other });
+                }
+                if variant == 1 {
+                    let _ = p2.validate();
+                }
+                p2.add_content("zz_extra".to_string(), &files[0].1);
+                for (id, t) in &files {
+                    p2.add_content(id.clone(), t);
+                }
+                if variant == 0 {
+                    let _ = p2.validate();
+                }
+                p2.remove_content("zz_extra".to_string());
+                check("fresh parser, same pairs reached through replacement and removal", &p2.validate(), &mut problems);
+                n_runs += 1;
+                // without any removal; the earlier contents define keys the project imports but does not define
+                // (decoys), or the file's own item with another kind
+                let imports = libx::scan_imports(&files);
+                let mut p3: Parser<String> = Parser::new();
+                for (k, (id, own)) in files.iter().enumerate() {
+                    let earlier = match variant {
+                        0 if !imports.is_empty() => libx::decoy_for(&imports[k % imports.len()]),
+                        1 => own.replacen(" parcelable ", " interface ", 1).replacen(" enum ", " parcelable ", 1),
+                        _ => files[(k + 1) % files.len()].1.clone(),
+                    };
+                    p3.add_content(id.clone(), &earlier);
+                }
+                if variant == 1 {
+                    let _ = p3.validate();
+                }
+                for (id, t) in &files {
+                    p3.add_content(id.clone(), t);
+                }
+                check("fresh parser, same pairs reached through replacement", &p3.validate(), &mut problems);
+                n_runs += 1;
             }
             // other threads: fresh per-thread hash keys
             let thread_results: Vec<(Res, String)> = std::thread::scope(|s| {
